@@ -12,10 +12,10 @@ import (
 func init() { commands["C19"] = runC19 }
 
 type bOp struct {
-	kind    string // new view slice set grow trunc len bytes
-	data    []byte
-	b, src  int
-	x, y    int64
+	kind   string // new view slice set grow trunc len bytes
+	data   []byte
+	b, src int
+	x, y   int64
 }
 
 func (o bOp) coq() string {
